@@ -895,8 +895,13 @@ func (w *Writer) appendTar(r io.Reader, lossless bool) error {
 	if lossless {
 		tr.RawAccounting = true
 	}
+	// A previous AppendTar may have left a compression stream open. Start from a stream
+	// boundary so that the offsets recorded below are relative to it.
+	if err := w.closeGz(); err != nil {
+		return err
+	}
 	prevOffset := w.cw.n
-	var prevOffsetUncompressed int64
+	prevOffsetUncompressed := w.uncompressedCounter.n
 	for {
 		h, err := tr.Next()
 		if err == io.EOF {
